@@ -405,6 +405,23 @@ func init() {
 			g.nRole++
 			return g.add("role-create", g.sudo, govtypes.NewMsgCreateRole(g.A(g.sudo), fmt.Sprintf("r%d", g.nRole), "generated role"))
 		}},
+		richKind{"gated-by-conflicted-roles", 3, false, func(g *richGen) bool {
+			// the account that holds a role whitelisting and a role blacklisting the permission sends a gated message
+			// (refused: expected to fail), and so does the account that holds only the whitelisting role (accepted)
+			who := g.o.NVal + 2
+			if g.chance(1, 3) {
+				who = g.o.NVal + 3
+			}
+			if !g.alive(who) {
+				return false
+			}
+			g.nRole++
+			kind := "probe:create-role-by-conflicted-roles"
+			if who == g.o.NVal+3 {
+				kind = "role-create-by-role-holder"
+			}
+			return g.add(kind, who, govtypes.NewMsgCreateRole(g.A(who), fmt.Sprintf("rc%d", g.nRole), "generated role"))
+		}},
 		richKind{"role-assign", 4, false, func(g *richGen) bool {
 			roles := g.customRoles()
 			if len(roles) == 0 || !g.alive(g.sudo) {
